@@ -152,6 +152,11 @@ def drv(c, ctx, col):
     except Exception as e:  # noqa
         col.violation(key, {"error": "%s: %s" % (type(e).__name__, e)}, sig="materialization-raised:" + type(e).__name__)
         return
+    verify_matrix(col, key, mm, list(formula), frame, fname, efr, out, desc, ctx)
+
+
+def verify_matrix(col, key, mm, fterms, frame, fname, efr, out, desc, ctx, reuse=True):
+    """every column of one model matrix obeys its label (and, with rank reduction off, the whole label list is the predicted one)"""
     vals, labels = dense(mm, out)
     spec = mm.model_spec
     names = list(spec.column_names)
@@ -161,7 +166,6 @@ def drv(c, ctx, col):
     if vals.shape != (len(frame), len(names)):
         col.violation(key, {"shape": vals.shape, "expected": (len(frame), len(names))}, sig="wrong-shape")
         return
-    fterms = list(formula)
     if [str(s.term) for s in spec.structure] != [str(t) for t in fterms]:
         col.violation(key, {"structure_terms": [str(s.term) for s in spec.structure], "formula_terms": [str(t) for t in fterms]},
                       sig="terms-not-in-formula-order")
@@ -213,8 +217,8 @@ def drv(c, ctx, col):
         return
     # the matrix regenerated from the attached spec is a model matrix of the same formula: its columns obey the same labels
     # (one output type per sub-check is enough: the regeneration path is shared, and C04 / C05 compare outputs and replays)
-    if out != ctx["outputs"][0]:
-        return
+    if not reuse or out != ctx["outputs"][0]:
+        return True
     try:
         mm2 = spec.get_model_matrix(frame)
         vals2, labels2 = dense(mm2, out)
@@ -228,6 +232,38 @@ def drv(c, ctx, col):
         bad = [names[j] for j in range(min(vals.shape[1], vals2.shape[1])) if vals2.shape[0] != vals.shape[0] or not np.allclose(vals2[:, j], vals[:, j], rtol=1e-12, atol=1e-12)]
         col.violation(key, {"columns_not_obeying_their_label": bad, "values_from_spec_reuse": vals2.tolist(), "values_checked_against_labels": vals.tolist()},
                       sig="spec-reuse:column-value")
+    return True
+
+
+def drv_parts(c, ctx, col):
+    """two-part formulas 'T1 ~ T2' and 'T1 | T2' over the universe: EACH part is a model matrix of its own terms and its columns obey their labels
+    (parts share the materializer, its caches and the factors)"""
+    from formulaic.utils.structured import Structured
+    U = ctx["universe"]
+    t1, t2 = U[c.choose(len(U))], U[c.choose(len(U))]
+    shape = c.pick(["~", "|"])
+    efr = not c.flag()
+    out = c.pick(ctx["outputs"])
+    fname = c.pick(ctx["frame_names"])
+    frame = ctx["frames"][fname]
+    s = "0 + %s %s 0 + %s" % (term_str(t1), shape, term_str(t2))
+    formula = Formula(s)
+    desc = "Formula(%r)" % s
+    key = "%s efr=%s output=%s frame=%s" % (desc, efr, out, fname)
+    if any(FACTORS[f][2] in ("cat", "lit") for t in (t1, t2) for f in t):
+        col.interesting()
+    col.sample({"formula": desc, "ensure_full_rank": efr, "output": out, "frame": fname})
+    try:
+        mm = formula.get_model_matrix(frame, ensure_full_rank=efr, output=out)
+    except Exception as e:  # noqa
+        col.violation(key, {"error": "%s: %s" % (type(e).__name__, e)}, sig="materialization-raised:" + type(e).__name__)
+        return
+    if not isinstance(mm, Structured):
+        col.violation(key, {"result_type": type(mm).__name__}, sig="parts:result-not-structured")
+        return
+    for j, (part, fpart) in enumerate(zip(mm._flatten(), formula._flatten())):
+        if not verify_matrix(col, key + " part=%d" % j, part, list(fpart), frame, fname, efr, out, desc, ctx):
+            return
 
 
 def subchecks(tier, seed):
@@ -241,6 +277,8 @@ def subchecks(tier, seed):
                                        "construction": ["term list"]}),
             Sub("columns-2terms-numpy", drv, {"universe": U, "K": 2, "modes": ["string"], "outputs": ["numpy"], "frames": fr, "frame_names": ["cross6"]},
                 shard_depth=2, bounds={"max_terms": 2, "universe": len(U), "frames": ["cross6"], "outputs": ["numpy"], "construction": ["formula string"]}),
+            Sub("columns-two-parts", drv_parts, {"universe": U, "outputs": ["pandas", "sparse"], "frames": fr, "frame_names": ["cross6"]},
+                shard_depth=2, bounds={"shapes": ["T1 ~ T2", "T1 | T2"], "universe": len(U), "frames": ["cross6"], "outputs": ["pandas", "sparse"]}),
             Sub("columns-1term-allframes", drv, {"universe": U, "K": 1, "modes": ["string", "terms"], "outputs": ["pandas", "numpy", "sparse"],
                                                  "frames": fr, "frame_names": list(fr), "materializers": ["pandas", "narwhals"]},
                 shard_depth=2, bounds={"max_terms": 1, "universe": len(U), "frames": list(fr)}),
